@@ -77,6 +77,31 @@ static const uint64_t g_hi[21] = {0ull, 9ull, 99ull, 999ull, 9999ull, 99999ull, 
 static uint32_t f32_bits(float f) { uint32_t b; memcpy(&b, &f, 4); return b; }
 static uint64_t f64_bits(double f) { uint64_t b; memcpy(&b, &f, 8); return b; }
 
+/* ---- ARDUINOJSON_USE_DOUBLE=0 (config nodbl): JsonFloat is float -------------------------------------------------------
+ * Number has no Double kind and no asDouble member, parseNumber works with FloatTraits<float> (mantissa_max 2^23-1,
+ * exponent_max 38, exponent_type int8_t) and calls make_float<float,int> only.  The property's range 1e-300 .. 1e300 cannot
+ * apply literally to a build whose widest floating type ends at FLT_MAX = 3.4e38; what its clauses can mean there, and what
+ * is demanded in this configuration:
+ *   - integers of [-2^63, 2^64) exact (unchanged);
+ *   - never a finite value of the wrong magnitude: the (mantissa, exponent) pair handed to make_float<float> denotes the
+ *     literal's decimal magnitude, |exponent| <= 63 (six-entry tables), one call;
+ *   - +/-infinity only for |v| >= 1e38 (FLT_MAX's decade: FLT_MAX_10_EXP = 38), +/-0 only for |v| < 1e-37 (below
+ *     FLT_MIN_10_EXP = -37) or a zero mantissa; inside [1e-37, 1e38) the result is whatever make_float<float> makes of the
+ *     pair (a finite float; infinity only where the product exceeds FLT_MAX, which lies in the decade of 1e38).
+ * The clause "a float computation that exceeds FLT_MAX is redone as a double" (literal_float_path_fits_float_*) has no
+ * meaning here and is not run in this configuration. */
+#ifdef CFG_nodbl
+#define PN_HAS_DOUBLE 0
+#define PN_KIND_MAX NT_UNSIGNED
+#define D_KINDS "the result kind is one of the four (no Double kind with ARDUINOJSON_USE_DOUBLE=0)"
+#define PN_P_INF 38      /* infinity only for p >= 38 */
+#define PN_P_ZERO (-38)  /* zero only for p <= -38 */
+#else
+#define PN_HAS_DOUBLE 1
+#define PN_KIND_MAX NT_DOUBLE
+#define D_KINDS "the result kind is one of the five"
+#endif
+
 /* ================================================================================================================ */
 #if defined(UNIT_PN) || defined(UNIT_PNLOOP)
 
@@ -206,8 +231,13 @@ static void spec_scan(const char *s, size_t n, struct lit_info *o) {
 #pragma CPROVER check pop
 #endif
 /* the property's range 1e-300 <= |v| <= 1e300 */
+#if PN_HAS_DOUBLE
 static _Bool lit_above(const struct lit_info *o) { return o->nonzero && (o->p > 300 || (o->p == 300 && !o->pow10)); }
 static _Bool lit_below(const struct lit_info *o) { return !o->nonzero || o->p < -300; }
+#else /* float-only build: the range of float, by decades (see the note on config nodbl above) */
+static _Bool lit_above(const struct lit_info *o) { return o->nonzero && o->p >= PN_P_INF; }
+static _Bool lit_below(const struct lit_info *o) { return !o->nonzero || o->p <= PN_P_ZERO; }
+#endif
 /* an integer literal of [-2^63, 2^64) */
 static _Bool lit_int_fits(const struct lit_info *o) {
   return o->is_integer && !o->big && (!o->neg || o->V <= ((uint64_t)1 << 63));
@@ -239,8 +269,14 @@ enum { CK_TABLE = 1, CK_MAG = 2, CK_FLOATFIT = 4, CK_ZERO_EXIT = 8, CK_INF_EXIT 
 #define D_TABLE_F "make_float<float> precondition: |e| <= 63, the six-entry power-of-ten tables"
 #define D_FLOATFIT "a float computation that exceeds FLT_MAX is redone as a double (a value <= 1e300 never becomes infinity)"
 #define D_FLOATLOW "the float path is taken only when the value is not below the smallest positive float (never +/-0 for a non-zero value)"
+#if PN_HAS_DOUBLE
+#define D_FLOATPREC "a literal that carries more than seven significant digits is not computed in single precision (1e-13 needs a double)"
 #define D_ZERO "+/-0 is returned only for a value below 1e-300"
 #define D_INF "+/-infinity is returned only for a value above 1e300"
+#else
+#define D_ZERO "USE_DOUBLE=0: +/-0 is returned only for a value below 1e-37 (the float range)"
+#define D_INF "USE_DOUBLE=0: +/-infinity is returned only for a value of at least 1e38 (FLT_MAX's decade)"
+#endif
 #define D_MAG "mantissa x 10^exponent handed to make_float has the decimal magnitude of the literal (never a finite value of the wrong magnitude)"
 #define D_MAGZERO "the mantissa handed to make_float is zero exactly when the literal is zero"
 static unsigned g_checks;
@@ -255,11 +291,13 @@ static int g_mf_e;
 #define CANARY_TABLE(e) ((e) != 7)
 #define CANARY_FIT(m, e) (!((m) == 77.0 && (e) == 0))
 #define CANARY_P(p) ((p) == 7 || (p) == 21 || (p) == 300)
-#define CANARY_EXIT(p) ((p) != 400 && (p) != -400 && (p) != 600)
+#define CANARY_PREC(m) 0
+#define CANARY_EXIT(p) ((p) != 400 && (p) != -400 && (p) != 600 && (p) != 100)
 #else
 #define CANARY_TABLE(e) 1
 #define CANARY_FIT(m, e) 1
 #define CANARY_P(p) 0
+#define CANARY_PREC(m) 0
 #define CANARY_EXIT(p) 1
 #endif
 #ifndef VERIF_NATIVE
@@ -282,8 +320,16 @@ float make_float_float_int(float m, int e) {
   CHECK(m >= 0.0f && m < 0x1p24f, "the mantissa handed to make_float<float> is non-negative and below 2^24 (converted exactly)");
   if (g_checks & CK_TABLE)
     CHECK(e >= -63 && e <= 63 && CANARY_TABLE(e), D_TABLE_F);
-  if (g_checks & CK_MAG)
+#if PN_HAS_DOUBLE /* (float-only build: every value goes through the float computation, however small) */
+  if (g_checks & CK_MAG) {
     CHECK(m == 0.0f || e >= -44, D_FLOATLOW);
+    /* C12: "within 1e-13*|v| when it carries more than seven significant digits": single precision (24 bits, 6e-8) cannot
+     * deliver that, so a mantissa of eight or more digits must not take the float path */
+#ifndef CFG_nodbl /* (a float-only build has nothing better to offer) */
+    CHECK(spec_ndigits((double)m) <= 7 + CANARY_PREC(m), D_FLOATPREC);
+#endif
+  }
+#endif
   /* contract of the real make_float<float>: the product, which is infinity when m x 10^e exceeds FLT_MAX; within 1e-4 of
    * that border the roundings of the multiplication chain may tip it either way (both answers are allowed here) */
   _Bool near_border = e >= 32 && e <= 38 && m > thr_fits_float(e) * 0.9999f;
@@ -440,25 +486,51 @@ static void pn_done(struct pn_case *c) {
 static void pn_check_floating(struct pn_case *c, unsigned checks) {
   const struct lit_info *li = &c->li;
   unsigned char t = c->r.type_;
+#if PN_HAS_DOUBLE
   CHECK(t == NT_FLOAT || t == NT_DOUBLE, "a literal that is not an integer of [-2^63, 2^64) parses to a floating value");
   _Bool rneg = t == NT_FLOAT ? (f32_bits(c->r.value_.asFloat) >> 31) != 0 : (f64_bits(c->r.value_.asDouble) >> 63) != 0;
+#else
+  CHECK(t == NT_FLOAT, "a literal that is not an integer of [-2^63, 2^64) parses to a floating value");
+  _Bool rneg = (f32_bits(c->r.value_.asFloat) >> 31) != 0;
+#endif
   CHECK(rneg == li->neg, "the result carries the sign of the literal");
 #ifdef VERIF_NATIVE
   /* replay on the real code: the real make_float ran; compare the final value with libc's correctly rounded strtod.
    * (factor 2 is a magnitude test, far looser than the 1e-6 of the property: its only purpose is to confirm a wrong
    * magnitude / infinity / zero that the structural checks of the CBMC build predicted) */
+#if PN_HAS_DOUBLE
   double got = t == NT_FLOAT ? (double)c->r.value_.asFloat : c->r.value_.asDouble;
+#else
+  double got = (double)c->r.value_.asFloat;
+#endif
   double ref = strtod(c->s, 0);
   double ag = fabs(got), ar = fabs(ref);
   VERIF_OUT("result_bits", f64_bits(got));
   VERIF_OUT("strtod_bits", f64_bits(ref));
   /* "a value within [1e-300, 1e300] parses to a finite number of the right magnitude, a larger one to infinity, a smaller one
    * to zero, never a finite value of the wrong magnitude" */
+#if PN_HAS_DOUBLE
   _Bool ok = lit_above(li) ? (isinf(got) || (ag >= 0.5e300 && ag >= ar / 2))
            : lit_below(li) ? ag <= 2e-300
                            : (isfinite(got) && ag >= ar / 2 && ag <= ar * 2);
+#else /* the same with the range of float: [1e-37, 1e38) (see the note on config nodbl) */
+  _Bool ok = lit_above(li) ? (isinf(got) || (ag >= 0.5e38 && ag >= ar / 2))
+           : lit_below(li) ? ag <= 2e-37
+                           : (isfinite(got) && ag >= ar / 2 && ag <= ar * 2);
+#endif
   if (checks & CK_TABLE) CHECK(ok, t == NT_FLOAT ? D_TABLE_F : D_TABLE_D);
   if (checks & CK_MAG) CHECK(ok, D_MAG);
+#ifndef CFG_nodbl
+  {
+    /* significant digits written: from the first non-zero mantissa digit to the last mantissa digit */
+    unsigned sig = 0;
+    _Bool started = 0;
+    for (const char *q = c->s; *q && *q != 'e' && *q != 'E'; q++)
+      if (*q >= '0' && *q <= '9') { if (*q != '0') started = 1; if (started) sig++; }
+    if ((checks & CK_MAG) && !lit_above(li) && !lit_below(li) && sig > 7 && isfinite(got) && ar > 0)
+      CHECK(fabs(got - ref) <= 1e-13 * ar, D_FLOATPREC);
+  }
+#endif
   if (checks & CK_FLOATFIT) CHECK(ok, D_FLOATFIT);
   if (checks & CK_ZERO_EXIT) CHECK(ok || got != 0, D_ZERO);
   if (checks & CK_INF_EXIT) CHECK(ok || !isinf(got), D_INF);
@@ -467,13 +539,18 @@ static void pn_check_floating(struct pn_case *c, unsigned checks) {
   if (g_mf_calls == 0) {
     /* no make_float: the value is out of range (or zero) whatever the mantissa */
     _Bool is_zero = t == NT_FLOAT && (f32_bits(c->r.value_.asFloat) & 0x7fffffffu) == 0;
+#if PN_HAS_DOUBLE
     _Bool is_inf = t == NT_DOUBLE && (f64_bits(c->r.value_.asDouble) & 0x7fffffffffffffffull) == 0x7ff0000000000000ull;
+#else
+    _Bool is_inf = t == NT_FLOAT && (f32_bits(c->r.value_.asFloat) & 0x7fffffffu) == 0x7f800000u;
+#endif
     CHECK(is_zero || is_inf, "a floating result not made by make_float is +/-0 or +/-infinity");
     if (checks & CK_ZERO_EXIT)
       CHECK(!is_zero || (lit_below(li) && CANARY_EXIT(li->p)), D_ZERO);
     if (checks & CK_INF_EXIT)
       CHECK(!is_inf || (lit_above(li) && CANARY_EXIT(li->p)), D_INF);
   } else {
+#if PN_HAS_DOUBLE
     CHECK(g_mf_calls == 1 || (g_mf_calls == 2 && g_mf_f_overflow && g_mf_double),
           "make_float is called once, or once more as a double when the float computation overflowed");
     if (checks & CK_FLOATFIT)
@@ -481,6 +558,16 @@ static void pn_check_floating(struct pn_case *c, unsigned checks) {
     CHECK(g_mf_double ? (t == NT_DOUBLE && (c->r.value_.asDouble == MARK_D || c->r.value_.asDouble == -MARK_D))
                       : (t == NT_FLOAT && (c->r.value_.asFloat == MARK_F || c->r.value_.asFloat == -MARK_F)),
           "the value made by make_float is returned with the literal's sign applied and nothing else");
+#else
+    CHECK(g_mf_calls == 1 && !g_mf_double, "USE_DOUBLE=0: make_float<float> is called once");
+    {
+      uint32_t mag = f32_bits(c->r.value_.asFloat) & 0x7fffffffu;
+      CHECK(t == NT_FLOAT && mag == (g_mf_f_overflow ? 0x7f800000u : f32_bits(MARK_F)),
+            "the value made by make_float is returned with the literal's sign applied and nothing else");
+    }
+    if (checks & CK_INF_EXIT) /* an infinity made by make_float<float>: the product exceeds FLT_MAX */
+      CHECK(!g_mf_f_overflow || (lit_above(li) && CANARY_EXIT(li->p)), D_INF);
+#endif
     if (checks & CK_MAG) {
       CHECK((g_mf_m != 0.0) == li->nonzero, D_MAGZERO);
       if (g_mf_m != 0.0 && li->nonzero)
@@ -548,6 +635,7 @@ static unsigned lit_run(unsigned checks) {
   pn_check_floating(&c, checks);
   unsigned m = 0;
 #ifndef VERIF_NATIVE
+#if PN_HAS_DOUBLE
   m |= (g_mf_calls == 1 && g_mf_double) ? 1u : 0u;
   m |= (g_mf_calls == 1 && !g_mf_double) ? 2u : 0u;
   m |= (g_mf_calls == 0 && c.r.type_ == NT_FLOAT) ? 4u : 0u;
@@ -559,6 +647,22 @@ static unsigned lit_run(unsigned checks) {
   m |= (c.n == PN_N) ? 256u : 0u;
   m |= (g_mf_calls == 2) ? 512u : 0u;
   m |= (!c.li.nonzero && c.li.E > 400) ? 1024u : 0u; /* 0e999 */
+#else /* float-only build: the goals that are specific to it */
+  {
+    uint32_t mag = f32_bits(c.r.value_.asFloat) & 0x7fffffffu;
+    m |= (g_mf_calls == 1 && g_mf_f_overflow && mag == 0x7f800000u) ? 1u : 0u; /* make_float<float> answered infinity (3.5e38) */
+    m |= (g_mf_calls == 1 && !g_mf_f_overflow) ? 2u : 0u;
+    m |= (g_mf_calls == 0 && mag == 0) ? 4u : 0u;                               /* zero without make_float: below 1e-37 */
+    m |= (g_mf_calls == 0 && mag == 0x7f800000u) ? 8u : 0u;                     /* float infinity without make_float: 1e39 and more */
+    m |= (g_mf_calls == 1 && g_mf_e > 30) ? 16u : 0u;
+    m |= (g_mf_calls == 1 && g_mf_e < -50) ? 32u : 0u;                          /* below the denormals, still through make_float<float> */
+    m |= (c.li.nfrac > 2 && c.li.nexp > 0 && c.li.neg) ? 64u : 0u;
+    m |= (g_mf_calls == 1 && g_mf_e == 38) ? 128u : 0u;
+    m |= (c.n == PN_N) ? 256u : 0u;
+    m |= (c.li.nonzero && c.li.p > 45 && c.li.p < 300 && g_mf_calls == 0) ? 512u : 0u; /* 1e100: a double's value, infinity here */
+    m |= (!c.li.nonzero && c.li.E > 400) ? 1024u : 0u; /* 0e999 */
+  }
+#endif
 #endif
   pn_done(&c);
   return m;
@@ -584,16 +688,123 @@ void h_lit_inf_exit(void) { unsigned m = lit_run(CK_INF_EXIT); LIT_COVERS(m); }
 #define CANARY_ACC(c) 0
 #define CANARY_REJ(c) 0
 #endif
+/* ---- ARDUINOJSON_ENABLE_NAN (config nan) / ARDUINOJSON_ENABLE_INFINITY (config inf) --------------------------------------
+ * C10: "NaN and Infinity only when the corresponding option is enabled".  With the option the number grammar gains, behind
+ * the optional sign, the words  NaN | nan  resp.  Infinity | infinity | inf  (the spellings the library's own tests pin:
+ * NaN nan Infinity +Infinity -Infinity inf +inf -inf).  A string whose first character behind the sign is the first letter
+ * of a word of the ENABLED option (n N resp. i I) is judged by the obligations option_* below and is left out of the
+ * default-grammar checks (OPTION_LETTER); every other string, including the words of an option that is NOT enabled, stays
+ * under the default-grammar checks: it must be Invalid. */
 #if defined(CFG_nan) || defined(CFG_inf)
-/* with NaN / Infinity enabled the routine answers on the first letter after the sign; the default grammar is what is
- * checked here, so that letter is excluded */
+static char opt_first(const struct pn_case *c) { return c->n > g_a0 ? c->s[g_a0] : 0; }
 static _Bool option_letter(const struct pn_case *c) {
-  char f = c->n > g_a0 ? c->s[g_a0] : 0;
-  return f == 'n' || f == 'N' || f == 'i' || f == 'I';
+  char f = opt_first(c);
+#ifdef CFG_nan
+  return f == 'n' || f == 'N';
+#else
+  return f == 'i' || f == 'I';
+#endif
 }
 #define OPTION_LETTER(c) option_letter(&(c))
+/* the word behind the sign, compared without loops (the buffer is PN_N + 1 >= 9 bytes, NUL-filled behind the string) */
+static _Bool ci(char ch, char lower) { return ch == lower || ch == (char)(lower - 32); }
+/* one of the pinned spellings, exactly */
+static _Bool opt_word_pinned(const struct pn_case *c) {
+  const char *w = c->s + g_a0;
+  size_t k = c->n - g_a0;
+#ifdef CFG_nan
+  return k == 3 && (w[0] == 'N' || w[0] == 'n') && w[1] == 'a' && w[2] == w[0];
+#else
+  return (k == 3 && w[0] == 'i' && w[1] == 'n' && w[2] == 'f') ||
+         (k == 8 && (w[0] == 'I' || w[0] == 'i') && w[1] == 'n' && w[2] == 'f' && w[3] == 'i' && w[4] == 'n' && w[5] == 'i' && w[6] == 't' && w[7] == 'y');
+#endif
+}
+/* the most lenient reading of "NaN" / "Infinity": the word in any mix of upper and lower case (NAN, Inf, INFINITY ...).
+ * Spellings that are words in this sense but not pinned are left open (neither demanded nor refused). */
+static _Bool opt_word_any_case(const struct pn_case *c) {
+  const char *w = c->s + g_a0;
+  size_t k = c->n - g_a0;
+#ifdef CFG_nan
+  return k == 3 && ci(w[0], 'n') && ci(w[1], 'a') && ci(w[2], 'n');
+#else
+  return (k == 3 && ci(w[0], 'i') && ci(w[1], 'n') && ci(w[2], 'f')) ||
+         (k == 8 && ci(w[0], 'i') && ci(w[1], 'n') && ci(w[2], 'f') && ci(w[3], 'i') && ci(w[4], 'n') && ci(w[5], 'i') && ci(w[6], 't') && ci(w[7], 'y'));
+#endif
+}
+static _Bool r_is_nan(const struct Number *r) {
+  return (r->type_ == NT_FLOAT && (f32_bits(r->value_.asFloat) & 0x7fffffffu) > 0x7f800000u) ||
+         (r->type_ == NT_DOUBLE && (f64_bits(r->value_.asDouble) & 0x7fffffffffffffffull) > 0x7ff0000000000000ull);
+}
+static _Bool r_is_inf_signed(const struct Number *r, _Bool neg) {
+  return (r->type_ == NT_FLOAT && f32_bits(r->value_.asFloat) == (neg ? 0xff800000u : 0x7f800000u)) ||
+         (r->type_ == NT_DOUBLE && f64_bits(r->value_.asDouble) == (neg ? 0xfff0000000000000ull : 0x7ff0000000000000ull));
+}
+#ifdef CFG_nan
+#define D_OPT_ACCEPT "ENABLE_NAN: [+-]?(NaN|nan) parses to a floating NaN"
+#define D_OPT_ONLY "ENABLE_NAN: behind the optional sign, a text that starts with n or N is a number only if it is the word NaN (Invalid otherwise)"
+#else
+#define D_OPT_ACCEPT "ENABLE_INFINITY: [+-]?(Infinity|infinity|inf) parses to a floating infinity of the sign written"
+#define D_OPT_ONLY "ENABLE_INFINITY: behind the optional sign, a text that starts with i or I is a number only if it is the word Infinity or inf (Invalid otherwise)"
+#endif
+/* the pinned spellings are numbers and denote NaN / the signed infinity (complete: the set of spellings is finite) */
+void h_option_words_accepted(void) {
+  struct pn_case c;
+  pn_input(&c);
+  __CPROVER_assume(OPTION_LETTER(c) && opt_word_pinned(&c));
+  pn_call(&c, 0);
+  COVER(c.s[0] == '-'); COVER(c.s[0] == '+'); COVER(g_a0 == 0);
+#ifdef CFG_nan
+  COVER(c.s[g_a0] == 'N'); COVER(c.s[g_a0] == 'n');
+#ifdef CANARY_OPTWORDS
+  CHECK(r_is_nan(&c.r) && c.s[0] != '+', D_OPT_ACCEPT);
+#else
+  CHECK(r_is_nan(&c.r), D_OPT_ACCEPT);
+#endif
+#else
+  COVER(c.n - g_a0 == 8 && c.s[g_a0] == 'I'); COVER(c.n - g_a0 == 8 && c.s[g_a0] == 'i'); COVER(c.n - g_a0 == 3);
+#ifdef CANARY_OPTWORDS
+  CHECK(r_is_inf_signed(&c.r, c.s[0] == '-' || c.s[0] == '+'), D_OPT_ACCEPT);
+#else
+  CHECK(r_is_inf_signed(&c.r, c.s[0] == '-'), D_OPT_ACCEPT);
+#endif
+#endif
+  CHECK(g_mf_calls == 0, "the option's words are answered without floating arithmetic");
+  CHECK(c.s[c.n] == 0, "the string is not modified");
+  pn_done(&c);
+}
+/* ... and nothing else that starts with the option's letter is (every string of at most PN_N characters) */
+void h_option_words_only(void) {
+  struct pn_case c;
+  pn_input(&c);
+  __CPROVER_assume(OPTION_LETTER(c) && !opt_word_any_case(&c));
+  pn_call(&c, 0);
+  COVER(c.n - g_a0 == 1);                       /* the bare letter: "N", "-i" */
+  COVER(c.n - g_a0 == 4 && c.s[0] != '-' && c.s[0] != '+'); /* "Nope", "Info" */
+  COVER(c.n == PN_N);
+  COVER(c.n - g_a0 == 4 && c.s[g_a0 + 3] >= '0' && c.s[g_a0 + 3] <= '9'); /* "nan1", "inf7" */
+#ifdef CANARY_OPTWORDS
+  CHECK(c.r.type_ == NT_INVALID && c.n != 2, D_OPT_ONLY);
+#else
+  CHECK(c.r.type_ == NT_INVALID, D_OPT_ONLY);
+#endif
+  CHECK(c.s[c.n] == 0, "the string is not modified");
+  pn_done(&c);
+}
 #else
 #define OPTION_LETTER(c) 0
+#endif
+/* option-specific cover goals of the default-grammar obligations when they run in the configurations nan / inf: a word of
+ * the option that is NOT enabled is refused; a text that starts with the enabled option's letter gets its early answer (the
+ * scan obligation any_string_* holds it in a heap block of exactly n + 1 bytes) */
+#if defined(CFG_nan)
+#define OPTION_REJECT_COVERS(c) COVER((c).n == 8 && (c).s[0] == 'I' && (c).s[7] == 'y' && (c).r.type_ == NT_INVALID); COVER((c).n == 4 && (c).s[0] == '-' && (c).s[1] == 'i' && (c).r.type_ == NT_INVALID)
+#define OPTION_ANSWER_COVERS(c) COVER(OPTION_LETTER(c) && (c).n == 3 && (c).r.type_ == NT_DOUBLE); COVER(OPTION_LETTER(c) && (c).n == PN_N); COVER(OPTION_LETTER(c) && (c).n == 1)
+#elif defined(CFG_inf)
+#define OPTION_REJECT_COVERS(c) COVER((c).n == 3 && (c).s[0] == 'N' && (c).s[2] == 'N' && (c).r.type_ == NT_INVALID); COVER((c).n == 4 && (c).s[0] == '-' && (c).s[1] == 'n' && (c).r.type_ == NT_INVALID)
+#define OPTION_ANSWER_COVERS(c) COVER(OPTION_LETTER(c) && (c).n == 8 && (c).r.type_ == NT_DOUBLE); COVER(OPTION_LETTER(c) && (c).n == PN_N); COVER(OPTION_LETTER(c) && (c).n == 1)
+#else
+#define OPTION_REJECT_COVERS(c) ((void)0)
+#define OPTION_ANSWER_COVERS(c) ((void)0)
 #endif
 void h_grammar_accepts(void) {
   struct pn_case c;
@@ -605,7 +816,7 @@ void h_grammar_accepts(void) {
   COVER(c.li.nfrac == 0 && c.li.nint > 0 && c.li.has_dot);
   COVER(c.s[0] == '+');
   CHECK(c.r.type_ != NT_INVALID && !CANARY_ACC(c), "every spelling of the number grammar is accepted");
-  CHECK(c.r.type_ <= NT_DOUBLE, "the result kind is one of the five");
+  CHECK(c.r.type_ <= PN_KIND_MAX, D_KINDS);
   pn_done(&c);
 }
 void h_grammar_rejects(void) {
@@ -616,6 +827,7 @@ void h_grammar_rejects(void) {
   COVER(c.n == 0);
   COVER(c.n == PN_N);
   COVER(c.li.lenient);
+  OPTION_REJECT_COVERS(c);
   CHECK(c.r.type_ == NT_INVALID && !CANARY_REJ(c), "everything outside [+-]? (digits ('.' digits?)? | '.' digits) ([eE][+-]?digits)? is Invalid");
   pn_done(&c);
 }
@@ -631,12 +843,14 @@ void h_any_string(void) {
   COVER(c.n == PN_N);
   COVER(c.n == 0);
   COVER(c.r.type_ == NT_INVALID && c.n > 3);
-  COVER(c.r.type_ == NT_DOUBLE);
+  COVER(c.r.type_ == (PN_HAS_DOUBLE ? NT_DOUBLE : NT_FLOAT));
   COVER(c.li.strict && c.li.has_dot && c.li.has_e);
   COVER(!c.li.lenient && c.n > 5 && c.li.nexp > 0);
   COVER(!c.li.lenient && c.li.E > 400); /* garbage behind a huge exponent */
   COVER(c.li.lenient && !c.li.strict);  /* an empty digit group */
-  CHECK(c.r.type_ <= NT_DOUBLE, "the result kind is one of the five");
+  OPTION_REJECT_COVERS(c);
+  OPTION_ANSWER_COVERS(c);
+  CHECK(c.r.type_ <= PN_KIND_MAX, D_KINDS);
   CHECK(c.s[c.n] == 0, "the string is not modified");
   CHECK(!c.li.strict || c.r.type_ != NT_INVALID, "every spelling of the number grammar is accepted");
   CHECK(c.li.strict || OPTION_LETTER(c) || c.r.type_ == NT_INVALID, "everything outside [+-]? (digits ('.' digits?)? | '.' digits) ([eE][+-]?digits)? is Invalid");
@@ -805,7 +1019,7 @@ struct Number parseNumber(char *s) { g_pn_calls++; g_pn_arg = s; return g_pn_ret
 #define H_CONVTO(TN, T) \
   CV_STUBS(TN, T) \
   static void convto_check_##TN(unsigned char type, uint64_t payload, T r) { \
-    if (type >= NT_FLOAT && type <= NT_DOUBLE) { \
+    if (type >= NT_FLOAT && type <= PN_KIND_MAX) { /* (USE_DOUBLE=0: kinds 1..3; a tag of 4 is not a kind there) */ \
       CHECK(g_cv_calls == 1 && g_cv_kind == type, "convertTo<T> calls convertNumber<T, stored type> once, for the kind that is stored"); \
       CHECK(g_cv_bits == (type == NT_FLOAT ? (payload & 0xffffffffu) : payload) + CANARY_CV(payload), "convertTo<T> hands over the stored member unchanged"); \
       CHECK(r == (T)g_cv_ret, "convertTo<T> returns convertNumber's result unchanged"); \
